@@ -1,4 +1,4 @@
-CONSTANTS PreBytes = 48  PairBytes = 12  MaxTrunc = 200
+CONSTANTS PreBytes = 48  PairBytes = 12  MaxTrunc = 200  MaxField = 168
 SPECIFICATION Spec
 INVARIANT Inv
 CHECK_DEADLOCK FALSE
